@@ -8,9 +8,14 @@
 //          each verdict is 1 (Ok), 0 (Err) or - (the document is not UTF-8, so no &str call exists);
 //          utf8 = 1 when std::str::from_utf8 accepts the document bytes.
 //   S <schema hex>
-//       -> two characters: cddl_from_str(text, false).is_ok(), root_type_name_from_cddl_str(text).is_ok()
-//          ("--" when the schema bytes are not UTF-8: fs::read_to_string would fail).
-use cddl::parser::root_type_name_from_cddl_str;
+//       -> "1 <kinds> <names>" when cddl_from_str(text, false) accepts: one kind character per rule of the
+//          AST in document order (t = type rule without generic parameters, g = generic type rule,
+//          G = group rule; "-" for no rule) and the comma separated rule names;
+//          "0 - -" when the parser rejects; "- - -" when the bytes are not UTF-8 (fs::read_to_string fails).
+//          Deliberately NOT root_type_name_from_cddl_str: that function is part of the tool under check
+//          (only cli.rs uses it); which rule is the root is decided by the Coq model from the kinds, the way
+//          the validators choose it (first type rule without generic parameters, validator/json.rs validate()).
+use cddl::ast::Rule;
 use cddl::{cddl_from_str, validate_cbor_from_slice, validate_csv_from_str, validate_json_from_str};
 
 fn bit(b: bool) -> char {
@@ -61,9 +66,32 @@ fn verdicts(parts: &[&str]) -> String {
 
 fn schema_status(parts: &[&str]) -> String {
   let schema_bytes = impl_driver::unhex(parts[1]);
-  match std::str::from_utf8(&schema_bytes) {
-    Ok(s) => format!("{}{}", bit(cddl_from_str(s, false).is_ok()), bit(root_type_name_from_cddl_str(s).is_ok())),
-    Err(_) => "--".to_string(),
+  let s = match std::str::from_utf8(&schema_bytes) {
+    Ok(s) => s,
+    Err(_) => return "- - -".to_string(),
+  };
+  match cddl_from_str(s, false) {
+    Err(_) => "0 - -".to_string(),
+    Ok(c) => {
+      let mut kinds = String::new();
+      let mut names: Vec<String> = vec![];
+      for r in c.rules.iter() {
+        match r {
+          Rule::Type { rule, .. } => {
+            kinds.push(if rule.generic_params.is_none() { 't' } else { 'g' });
+            names.push(rule.name.ident.to_string());
+          }
+          Rule::Group { rule, .. } => {
+            kinds.push('G');
+            names.push(rule.name.ident.to_string());
+          }
+        }
+      }
+      if kinds.is_empty() {
+        kinds.push('-');
+      }
+      format!("1 {} {}", kinds, if names.is_empty() { "-".to_string() } else { names.join(",") })
+    }
   }
 }
 
